@@ -215,8 +215,8 @@ def follow(links, cache, containers, failed, when, hist):
                     'is still cached and not running' % (inst, ent['gen']))
         clash = containers.get(ent.get('uname'))
         if clash is not None and clash['gen'] != ent['gen']:
-            return ('C13:running-not-matching-cache:missing:%s:'
-                    'via-unique-name-collision' % when,
+            return ('C13:running-not-matching-cache:missing:%s:%s' % (
+                when, ent.get('clash') or 'via-unique-name-collision-other'),
                     'cache/%s (generation %s) is not running; the unique '
                     'name %s its (ctime, inode) give is the name of the '
                     'container of generation %s' % (
